@@ -38,8 +38,16 @@ def st_states_case():
     descr = [h for h, _c, _p in inv.descriptors]
     ctx_descr = [h for h, _c in inv.context_descriptors]
     ctx_states = inv.context_states + [f'vf_ctx_{i}' for i in range(4)]
+    parents = {h: p for h, _c, p in inv.descriptors}
+    ancestors = set()  # non-MDS ancestors of context descriptors (SystemContext): select nothing by themselves
+    for h in ctx_descr:
+        p = parents.get(h)
+        while p is not None and parents.get(p) is not None:
+            ancestors.add(p)
+            p = parents.get(p)
     handle = st.one_of(st.sampled_from(descr), st.sampled_from(ctx_descr), st.sampled_from(ctx_states),
-                       st.sampled_from(inv.mds), st.sampled_from(['vf_unknown', 'mds', 'x_y']))
+                       st.sampled_from(inv.mds), st.sampled_from(['vf_unknown', 'mds', 'x_y']),
+                       st.sampled_from(sorted(ancestors) or descr))
     handles = st.one_of(st.just([]), st.none(), st.lists(handle, min_size=1, max_size=5),
                         st.lists(handle, min_size=1, max_size=3).map(lambda l: l + l[:1]))
     prog = st.lists(MP.st_op(inv, kinds=('metric',), descriptor_ops=True, context_ops=True, multi=False), max_size=6)
@@ -166,7 +174,9 @@ def st_texts_case():
         'langs': st.one_of(st.none(), st.lists(st.sampled_from(['en', 'de', 'en-US', 'fr']), min_size=1, max_size=2, unique=True)),
         'widths': st.one_of(st.none(), st.lists(st.sampled_from(WIDTHS), min_size=1, max_size=2, unique=True)),
         'lines': st.one_of(st.none(), st.lists(st.integers(0, 3), min_size=1, max_size=2, unique=True))})
-    return st.tuples(st.lists(text, max_size=8), st.lists(query, min_size=1, max_size=3))
+    # (texts, queries, texts added to the same store afterwards, queries after that)
+    return st.tuples(st.lists(text, max_size=8), st.lists(query, min_size=1, max_size=3),
+                     st.lists(text, max_size=4), st.lists(query, max_size=3))
 
 
 def _mk_text(t):
@@ -185,7 +195,7 @@ _WORLD = {}
 
 def texts_case(ctx, case):
     from vf.props import c01
-    texts, queries = case
+    texts, queries, more_texts, more_queries = case if len(case) == 4 else (*case, [], [])
     c01.park_role_workers()
     if 'w' not in _WORLD:  # one provider/consumer pair per process; the store is replaced per case
         L.reset_network()
@@ -195,14 +205,41 @@ def texts_case(ctx, case):
     world, consumer = _WORLD['w']
     from sdc11073.provider.porttypes.localizationservice import LocalizationStorage
     store_texts = [_mk_text(t) for t in texts]
-    world.provider.hosted_services.localization_service.localization_storage = LocalizationStorage(store_texts)
-    store_keys = [_key(t) for t in store_texts]
+    storage = LocalizationStorage(store_texts)
+    world.provider.hosted_services.localization_service.localization_storage = storage
     client = consumer.client('LocalizationService')
     out = []
     nontrivial = False
+    rounds = [(None, queries)]
+    if more_queries:
+        rounds.append(([_mk_text(t) for t in more_texts], more_queries))
+    for added, qs in rounds:
+        if added is not None:
+            storage.add(*added)  # the store grows after it has answered queries
+            store_texts = store_texts + added
+        store_keys = [_key(t) for t in store_texts]
+        _run_text_queries(client, qs, store_texts, store_keys, out)
+        nontrivial |= any(sum(v is not None for v in q.values()) >= 2 for q in qs) or (bool(added) and not out)
+        if out:
+            break
+    if not out:
+        try:
+            langs = sorted(consumer.client('LocalizationService').get_supported_languages().result.Lang)
+        except Exception as ex:  # noqa: BLE001
+            if not R.exc_in_library(ex):
+                raise
+            langs = None
+            out.append((f'{P}/GetSupportedLanguages-raises/{R.exc_sig(ex)}', f'{type(ex).__name__}: {ex}'[:300]))
+        want = sorted({str(t.Lang) for t in store_texts})
+        if langs is not None and langs != want:
+            out.append((f'{P}/supported-languages', f'returned {langs}, stored languages {want}'))
+    ctx.case(case, nontrivial, 'texts', classes=('store-grows-between-queries',) if len(rounds) > 1 and more_texts else ())
+    return out
+
+
+def _run_text_queries(client, queries, store_texts, store_keys, out):  # noqa: C901, PLR0912
     for q in queries:
         n_constraints = sum(v is not None for v in q.values())
-        nontrivial |= n_constraints >= 2
         widths = None if q['widths'] is None else [__import__('sdc11073').xml_types.pm_types.LocalizedTextWidth(w) for w in q['widths']]
         try:
             res = client.get_localized_texts(refs=q['refs'], version=q['version'], langs=q['langs'], text_widths=widths,
@@ -240,19 +277,6 @@ def texts_case(ctx, case):
                             f'{latest}'))
         if out:
             break
-    if not out:
-        try:
-            langs = sorted(consumer.client('LocalizationService').get_supported_languages().result.Lang)
-        except Exception as ex:  # noqa: BLE001
-            if not R.exc_in_library(ex):
-                raise
-            langs = None
-            out.append((f'{P}/GetSupportedLanguages-raises/{R.exc_sig(ex)}', f'{type(ex).__name__}: {ex}'[:300]))
-        want = sorted({str(t.Lang) for t in store_texts})
-        if langs is not None and langs != want:
-            out.append((f'{P}/supported-languages', f'returned {langs}, stored languages {want}'))
-    ctx.case(case, nontrivial, 'texts')
-    return out
 
 
 def shard(ctx, which, n):
